@@ -1,7 +1,7 @@
 ---- MODULE MC_Lexer ----
 (* Model checking of machine L over every byte string up to MaxLen over an adversarial alphabet, *)
 (* and generation of one replayable record per input (Gen).                                      *)
-EXTENDS TwLexer, TwLexemes, Json
+EXTENDS TwLexer, TwLexemes, Json, FiniteSets
 
 CONSTANTS Alphabet, MaxLen, Emit_, Mode   \* Mode = "bytes": Alphabet is a set of byte codes; "lexemes": a set of byte sequences
 
@@ -35,12 +35,15 @@ Render(k, acc) ==    \* [ok, out]: ok = the stream from k on is text / {{ INT }}
 \* C08 at lexer level: inputs that every conforming parser must reject
 Count(T) == Len(SelectSeq(toks, LAMBDA tk : tk.t \in T))
 LastTok == toks[Len(toks)]
+\* an input that ends with the header of a block-form @insert("n") is unterminated (see MC_Parser)
+EndsWithBlockInsert == LET n == Len(toks) - 1 IN n >= 4 /\ toks[n - 3].t = "INSERT" /\ toks[n - 2].t = "LPAREN" /\ toks[n - 1].t = "STR" /\ toks[n].t = "RPAREN"
+                                                 /\ toks[n + 1].t = "EOF"
 ErrTags == (IF done /\ LastTok.t = "ILLEGAL" /\ Len(LastTok.lit) = 1 /\ LastTok.s = LastTok.e /\ ~(Ch(LastTok.s) \in {34, 39})
                THEN {"illegal-byte"} ELSE {})
       \cup (IF done /\ LastTok.t = "ILLEGAL" /\ Ch(LastTok.s) \in {34, 39} THEN {"unterminated-string"} ELSE {})
       \cup (IF done /\ LastTok.t = "ILLEGAL" /\ Ch(LastTok.s) = 123 THEN {"unterminated-comment"} ELSE {})
       \cup (IF done /\ LastTok.t = "EOF" /\ ~html THEN {"open-code"} ELSE {})
-      \cup (IF done /\ Count({"IF", "EACH", "FOR"}) > Count({"END"}) THEN {"open-block"} ELSE {})
+      \cup (IF done /\ (Count({"IF", "EACH", "FOR"}) > Count({"END"}) \/ EndsWithBlockInsert) THEN {"open-block"} ELSE {})
 MustErr == ErrTags # {}
 SetToSeq_(S) == LET RECURSIVE F(_) F(X) == IF X = {} THEN <<>> ELSE LET x == CHOOSE x \in X : TRUE IN <<x>> \o F(X \ {x}) IN F(S)
 
